@@ -617,11 +617,11 @@ def run(ctx):
         ctx.obligations = []
         ok = ctx.coq_props()
     q = ctx.quick
-    n = corr(ctx, 14 if q else 120, 3 if q else 5)
+    n = corr(ctx, 14 if q else 300, 3 if q else 5)
     ctx.log('correspondence: %d cases' % n)
-    pt_generated(ctx, 25 if q else 400, 3 if q else 6)
-    pt_real(ctx, 80 if q else 1500)
-    probe_injectivity(ctx, 15 if q else 300)
+    pt_generated(ctx, 25 if q else 1200, 3 if q else 6)
+    pt_real(ctx, 80 if q else 5000)
+    probe_injectivity(ctx, 15 if q else 1000)
     run_findings(ctx)
     if not ok:
         common.proof_broken(ctx)
